@@ -478,6 +478,7 @@ type item[T any] struct {
 }
 
 type Chan[T any] struct {
+	owner   *Sched // controlled execution the modelled state belongs to (a long-lived channel starts every execution empty)
 	vc      VC
 	id      string
 	real    chan T
@@ -491,10 +492,20 @@ type Chan[T any] struct {
 func MakeChan[T any](n int) *Chan[T] {
 	c := &Chan[T]{real: make(chan T, n), cap: n}
 	if s := cur; s != nil {
+		c.owner = s
 		c.id = s.objID()
 		c.vc = VC{}
 	}
 	return c
+}
+
+// enter resets the modelled state of a channel that outlives one controlled execution (package-level
+// channels): every execution starts from the same state.
+func (c *Chan[T]) enter(s *Sched) {
+	if c.owner != s {
+		c.owner = s
+		c.buf, c.closed, c.seq, c.picked_, c.vc = nil, false, 0, 0, nil
+	}
 }
 
 func (c *Chan[T]) sync(s *Sched) {
@@ -537,6 +548,7 @@ func (c *Chan[T]) Send(v T) {
 		s.park(OpNever, nil, 0)
 		return
 	}
+	c.enter(s)
 	s.park(OpSend, c, 0)
 	if c.closed {
 		panic("send on closed channel")
@@ -571,6 +583,7 @@ func (c *Chan[T]) Recv2() (T, bool) {
 		s.park(OpNever, nil, 0)
 		return z, false
 	}
+	c.enter(s)
 	s.park(OpRecv, c, 0)
 	c.sync(s)
 	if len(c.buf) == 0 {
@@ -591,6 +604,7 @@ func (c *Chan[T]) Close() {
 	if s.aborting {
 		return
 	}
+	c.enter(s)
 	s.park(OpClose, c, 0)
 	c.sync(s)
 	if c.closed {
